@@ -5,6 +5,7 @@ import (
 	"encoding/base64"
 	"encoding/json"
 	"fmt"
+	"github.com/ory/fosite"
 	"net/url"
 	"regexp"
 	"strings"
@@ -48,7 +49,7 @@ var c03Kinds = []string{"correctV", "noV", "wrongV", "crossV", "short42", "long1
 
 // extended alphabet: the same attempts with unusual grant_type spellings (a token request is a
 // token request however its grant_type list is written)
-var c03KindsExt = append(append([]string(nil), c03Kinds...), "noV/gt=extra", "noV/gt=dup", "wrongV/gt=extra", "noV/gt=case", "noV/fault", "wrongV/fault", "correctV/abandoned", "correctV/fault-invalidate")
+var c03KindsExt = append(append([]string(nil), c03Kinds...), "noV/gt=extra", "noV/gt=dup", "wrongV/gt=extra", "noV/gt=case", "noV/fault", "wrongV/fault", "correctV/abandoned", "correctV/fault-invalidate", "noV/fault-conflict", "wrongV/fault-conflict")
 
 // third alphabet: unusual spellings of the code itself (whatever string redeems the code must satisfy the binding)
 var c03KindsSpell = []string{"correctV", "noV", "wrongV", "noV/code=trail-space", "noV/code=lead-space", "noV/code=newline", "noV/code=tab", "noV/code=crlf", "wrongV/code=trail-space", "noV/code=no-prefix", "noV/code=upper-prefix"}
@@ -119,7 +120,7 @@ func c03GrantType(kind string) (string, string) {
 			return kind[:i], "Authorization_Code"
 		}
 	}
-	for _, sfx := range []string{"/fault", "/abandoned", "/fault-invalidate"} {
+	for _, sfx := range []string{"/fault", "/abandoned", "/fault-invalidate", "/fault-conflict"} {
 		if strings.HasSuffix(kind, sfx) {
 			return strings.TrimSuffix(kind, sfx), "authorization_code"
 		}
@@ -286,6 +287,15 @@ func c03RunSeq(c c03Case, res *WRes) (outcomes []string) {
 			w.Store.Before = func(call *Call) error {
 				if call.Name == "GetPKCERequestSession" {
 					return fmt.Errorf("storage: connection reset")
+				}
+				return nil
+			}
+		}
+		if strings.HasSuffix(kind, "/fault-conflict") {
+			// the PKCE lookup loses a transaction conflict: the store answers with the sentinel fosite documents for it
+			w.Store.Before = func(call *Call) error {
+				if call.Name == "GetPKCERequestSession" {
+					return fosite.ErrSerializationFailure
 				}
 				return nil
 			}
